@@ -264,7 +264,7 @@ func c04Collisions(r *verdict.Run) {
 }
 
 func checkC04(r *verdict.Run) {
-	r.Rule = "random sequences of hash commands over 2 small hashes + wrong-typed/missing keys, the exhaustive HINCRBY (old value x delta) sign table, and large hashes grown across several table doublings, shrunk and regrown with the whole mapping re-read after every step; " +
+	r.Rule = "random sequences of hash commands over 2 small hashes + wrong-typed/missing keys, the exhaustive HINCRBY (old value x delta) sign table, and large hashes grown across several table doublings, shrunk and regrown with the whole mapping re-read after every step, and churn sequences of 500-1500 steps over three long-lived hashes of different sizes (HSET/HDEL cycles with whole-hash reads, COPY and RENAME in between); " +
 		"oracle per step: reply = reference model reply (HRANDFIELD by predicate), full mapping = model, failed commands inert. distinct = (command+options, prior key class, outcome class) + table cells"
 	c04SignTable(r)
 	c04Collisions(r)
@@ -276,4 +276,55 @@ func checkC04(r *verdict.Run) {
 	r.Set("large_hash_sizes", sizes)
 	runDiffSequences(r, tierPick(r, 300, 6000), func(rng *rand.Rand) int { return 30 + rng.Intn(50) },
 		[]string{"h0", "h1", "ws", "wl", "km"}, [][]string{{"SET", "ws", "str"}, {"RPUSH", "wl", "a"}, {"HSET", "h0", "f1", "5", "n", "-5", "m", "abc"}}, c04Gen)
+	runDiffSequencesN(r, tierPick(r, 24, 240), 2, 10000, func(rng *rand.Rand) int { return 500 + rng.Intn(1000) },
+		[]string{"c0", "c1", "c2", "cd"}, [][]string{{"HSET", "c0", "apple", "1", "banana", "2", "cherry", "3", "date", "4", "fig", "5", "grape", "6"}, {"HSET", "c1", "banana", "1", "kiwi", "2"}}, c04ChurnGen)
+}
+
+// c04ChurnGen: long-lived hashes of different sizes under HSET/HDEL churn (table growth, shrinking, ageing) with the
+// whole-hash reads in between; never DEL, so the same objects live through the sequence.
+func c04ChurnGen(rng *rand.Rand, m *model.Model, keys []string) []string {
+	hs := []string{"c0", "c1", "c2"}
+	k := pick(rng, hs)
+	span := map[string]int{"c0": 9, "c1": 14, "c2": len(c05ChurnMembers)}[k]
+	fld := func() string { return c05ChurnMembers[rng.Intn(span)] }
+	switch x := rng.Intn(40); {
+	case x < 12:
+		a := []string{"HSET", k}
+		for i := 0; i < 1+rng.Intn(3)*rng.Intn(3); i++ {
+			a = append(a, fld(), strconv.Itoa(rng.Intn(50)))
+		}
+		return a
+	case x < 24:
+		a := []string{"HDEL", k}
+		for i := 0; i < 1+rng.Intn(2)*rng.Intn(3); i++ {
+			a = append(a, fld())
+		}
+		return a
+	case x < 26:
+		if rng.Intn(2) == 0 {
+			return []string{"HSET", k, "churn", "1"}
+		}
+		return []string{"HDEL", k, "churn"}
+	case x < 28:
+		return []string{"HGETALL", k}
+	case x < 30:
+		return []string{pick(rng, []string{"HKEYS", "HVALS", "HLEN"}), k}
+	case x < 32:
+		return []string{"HMGET", k, fld(), fld(), fld()}
+	case x < 33:
+		return []string{"HINCRBY", k, fld(), strconv.Itoa(rng.Intn(9) - 4)}
+	case x < 34:
+		return []string{"HSETNX", k, fld(), "nx"}
+	case x < 35:
+		return []string{"HRANDFIELD", k, strconv.Itoa(rng.Intn(12) - 4)}
+	case x < 36:
+		return []string{"COPY", k, "cd", "REPLACE"}
+	case x < 37:
+		return []string{"HGETALL", "cd"}
+	case x < 38:
+		return []string{"RENAME", "cd", pick(rng, hs)}
+	case x < 39:
+		return []string{"HEXISTS", k, fld()}
+	}
+	return []string{"HSTRLEN", k, fld()}
 }
